@@ -255,6 +255,229 @@ def rule_R4(ctx, prj):
             ctx.ok("R4", rd.site(), f"cache without key {ptxt}: {verdict}")
 
 
+MARKERS = {"CACHEDIR.TAG": "Signature: 8a477f597d28d172789f06886806bc55", ".gitignore": None}
+
+
+def _scan_job(job):
+    """(repo root, state, expected document) -> verdict string; evaluated in a worker process"""
+    from ..absint import Unknown
+    from ..core import Project
+    from .. import scan_eval as S
+    root, state, fresh, want_files, markers = job
+    prj = _PRJ.get(root)
+    if prj is None:
+        prj = _PRJ[root] = Project(root)
+    try:
+        r = S.scan(prj, state)
+    except Unknown as e:
+        return ("unknown", str(e), None)
+    if r.raised:
+        return ("raises", r.raised, None)
+    doc = r.state.texts.get(S.DOC)
+    files = tuple(sorted(r.state.tree.get(S.CACHE, ([], []))[1]))
+    if doc != fresh:
+        return ("differs", _first_doc_difference(fresh, doc), r.state)
+    if files != want_files:
+        return ("incomplete", f"the cache directory holds {list(files)}; a complete scan leaves {list(want_files)}", r.state)
+    for m, t in markers:
+        if r.state.texts.get(S.CACHE + "/" + m) != t:
+            return ("incomplete", f"{m} reads {r.state.texts.get(S.CACHE + '/' + m)!r}; a complete scan leaves {t!r}", r.state)
+    return ("ok", "", r.state)
+
+
+_PRJ: dict = {}
+
+
+def _first_doc_difference(a, b) -> str:
+    if b is None:
+        return "no cache document was written"
+    import json
+    try:
+        da, db = json.loads(a), json.loads(b)
+    except ValueError:
+        return "the cache document written is not JSON"
+
+    def walk(x, y, path):
+        if type(x) is not type(y):
+            return f"{path}: {y!r} instead of {x!r}"
+        if isinstance(x, dict):
+            for k in list(x) + [k for k in y if k not in x]:
+                if k not in x or k not in y:
+                    return f"{path}/{k}: {'missing' if k not in y else 'extra'}"
+                d = walk(x[k], y[k], f"{path}/{k}")
+                if d:
+                    return d
+            return None
+        if isinstance(x, list):
+            if len(x) != len(y):
+                return f"{path}: {len(y)} items instead of {len(x)}"
+            for i, (p, q) in enumerate(zip(x, y)):
+                d = walk(p, q, f"{path}/{i}")
+                if d:
+                    return d
+            return None
+        return None if x == y else f"{path}: {y!r} instead of {x!r}"
+    return (walk(da, db, "") or "the documents differ in layout only")[:300]
+
+
+def rule_R5_history(ctx, prj, thorough: bool):
+    """scan_command evaluated end to end on a virtual file system, over every state an interrupted scan can leave and
+    every structural fault of the cache; closure over the states reached gives the interleavings of faults and scans"""
+    import concurrent.futures as cf
+    import copy
+    import json
+    import os
+    from ..absint import PyRaise, Unknown
+    from .. import cache_eval as CE
+    from .. import scan_eval as S
+    ctx.rule("R5", "whole histories, evaluated: scan_command interpreted on a virtual file system (three source files; lexing and "
+                   "measuring replaced by a stub that depends on the file). From (a) every state an interrupted first scan or "
+                   "re-scan can leave - after each file-system operation and with each write cut short after every character "
+                   f"({'all offsets' if thorough else 'every seventh offset, all offsets near both ends'}) - (b) every "
+                   "structural fault of the cache (empty, not JSON, other JSON types, undecodable bytes, each key of each level "
+                   "missing, each value replaced by null / a string or number / a list / an object, directory without the "
+                   "document / without marker files / empty) and (c) every state reached from those (closure = interleavings "
+                   "of faults and scans): the next scan completes, writes exactly the document of a fresh scan and leaves the "
+                   "cache directory with the document and both marker files", floor=100)
+    sc = prj.func("codelimit.commands.scan:scan_command")
+    try:
+        first = S.scan(prj, S.State())
+        if first.raised:
+            ctx.viol("R5", "scan/first", sc.site(), f"the very first scan of a directory raises {first.raised}")
+            return
+        fresh = first.state.texts.get(S.DOC)
+        if fresh is None or S.normal(fresh) is None:
+            raise Unknown("the first scan writes no JSON document at .codelimit_cache/codelimit.json")
+        S1 = first.state
+        want_files = tuple(sorted(S1.tree[S.CACHE][1]))
+        markers = tuple((m, S1.texts.get(S.CACHE + "/" + m)) for m in want_files if m != "codelimit.json")
+        again = S.scan(prj, S1)
+        if again.raised or again.state.texts.get(S.DOC) != fresh:
+            ctx.viol("R5", "scan/second", sc.site(), "a second scan of an unchanged directory " +
+                     (f"raises {again.raised}" if again.raised else f"writes another document: {_first_doc_difference(fresh, again.state.texts.get(S.DOC))}"))
+            return
+        if any(p.startswith(S.ROOT + "/") and not p.startswith(S.CACHE) for p in again.read):
+            ctx.info(f"R5: the second scan read {again.read} again (no reuse)")
+        ctx.ok("R5", sc.site(), f"first scan: operations {[(o[0], o[1].rsplit('/', 1)[-1]) for o in first.ops]}; second scan reuses every entry and writes the same document")
+    except (Unknown, PyRaise) as e:
+        ctx.info(f"R5: scan_command not evaluable ({type(e).__name__}: {e}); the structural rules R1-R3 decide")
+        ctx.rule("R5", "scan_command not evaluable by the interpreter: structural rules R1-R3 decide", floor=0)
+        return False
+    stride = 1 if thorough else 7
+    scenarios = []
+    cs, _ = S.crash_states(S.State(), first.ops, stride)
+    scenarios += [("first scan interrupted: " + d, st) for d, st in cs]
+    cs, _ = S.crash_states(S1, again.ops, stride)
+    scenarios += [("re-scan interrupted: " + d, st) for d, st in cs]
+    # a re-scan after a source file changed (the document written differs from the one on disk)
+    doc = json.loads(fresh)
+    # structural faults
+    for desc, text in (("empty file", ""), ("not JSON", "{ truncated"), ("JSON null", "null"), ("JSON list", "[]"), ("JSON object without keys", "{}"),
+                       ("JSON number", "42"), ("JSON string", '"text"'), ("a blank", " "), ("a NUL byte", "\x00")):
+        scenarios.append((f"cache document replaced by {desc}", S1.with_file(S.DOC, text)))
+    scenarios.append(("cache directory without the document", S1.with_file(S.DOC, None)))
+    for m in want_files:
+        if m != "codelimit.json":
+            scenarios.append((f"cache directory without {m}", S1.with_file(S.CACHE + "/" + m, None)))
+            scenarios.append((f"{m} empty", S1.with_file(S.CACHE + "/" + m, "")))
+    empty = S1.copy()
+    for m in want_files:
+        empty = empty.with_file(S.CACHE + "/" + m, None)
+    scenarios.append(("cache directory empty", empty))
+    only_doc = S1.copy()
+    for m in want_files:
+        if m != "codelimit.json":
+            only_doc = only_doc.with_file(S.CACHE + "/" + m, None)
+    scenarios.append(("cache directory with the document but without marker files", only_doc))
+
+    def put(cur, path, val):
+        d = copy.deepcopy(cur)
+        c = d
+        for k in path[:-1]:
+            c = c[k]
+        c[path[-1]] = val
+        return d
+
+    def get(cur, path):
+        for k in path:
+            cur = cur[k]
+        return cur
+    for path in sorted(set(CE.key_paths(doc)), key=repr):
+        ptxt = "/".join(str(x) for x in path)
+        scenarios.append((f"key {ptxt} missing", S1.with_file(S.DOC, json.dumps(CE.without(doc, path)))))
+        old = get(doc, path)
+        for alt in (None, 7 if isinstance(old, str) else "x", {} if isinstance(old, list) else [], [] if isinstance(old, dict) else {}):
+            scenarios.append((f"value of {ptxt} replaced by {json.dumps(alt)}", S1.with_file(S.DOC, json.dumps(put(doc, path, alt)))))
+    undec = S1.copy()
+    undec.undecodable = {S.DOC}
+    scenarios.append(("cache document with bytes that are not valid UTF-8", undec))
+    # evaluate (parallel), then close over the states reached
+    seen = {S1.key(): "the state after a complete scan"}
+    results = []
+    jobs = [(str(prj.root), st, fresh, want_files, markers) for _, st in scenarios]
+    workers = min(16, os.cpu_count() or 1) if len(jobs) > 64 else 1
+    if workers > 1:
+        with cf.ProcessPoolExecutor(workers) as ex:
+            outs = list(ex.map(_scan_job, jobs, chunksize=16))
+    else:
+        outs = [_scan_job(j) for j in jobs]
+    results = list(zip(scenarios, outs))
+    frontier = []
+    for (desc, st), (verdict, detail, after) in results:
+        if after is not None and after.key() not in seen:
+            seen[after.key()] = f"the state after a scan that started from: {desc}"
+            frontier.append((seen[after.key()], after))
+    rounds = 0
+    while frontier and rounds < 6:
+        rounds += 1
+        nxt = []
+        for desc, st in frontier:
+            out = _scan_job((str(prj.root), st, fresh, want_files, markers))
+            results.append(((desc, st), out))
+            if out[2] is not None and out[2].key() not in seen:
+                seen[out[2].key()] = f"the state after a scan that started from: {desc}"
+                nxt.append((seen[out[2].key()], out[2]))
+        frontier = nxt
+    if frontier:
+        ctx.info(f"R5: the closure over reached states did not finish within 6 rounds ({len(frontier)} new states left)")
+    bad = {}
+    unknown = 0
+    for (desc, st), (verdict, detail, after) in results:
+        if verdict == "ok":
+            ctx.obligations += 1
+            ctx.discharged += 1
+            continue
+        if verdict == "unknown":
+            unknown += 1
+            ctx.info(f"R5: not evaluable from [{desc}]: {detail}")
+            continue
+        ctx.obligations += 1
+        kind = {"raises": "scan fails", "differs": "report differs from the fresh scan's", "incomplete": "cache left incomplete"}[verdict]
+        base = desc
+        pre = "the state after a scan that started from: "
+        later = base.startswith(pre)
+        while base.startswith(pre):
+            base = base[len(pre):]
+        group = base.split(":")[0] if "interrupted" in base else ("value replaced" if base.startswith("value of") else "key missing" if base.startswith("key ") else base)
+        if later:
+            group += "/a later scan"
+        bad.setdefault((verdict, group), []).append((desc, detail))
+    n_ok = sum(1 for _, o in results if o[0] == "ok")
+    ctx.instances.setdefault("R5", []).extend(dict(site=sc.site(), what=f"scenario #{i}", verdict="ok") for i in range(n_ok))
+    ctx.lines.append(f"OK rule=R5 site={sc.site()} construct=scan histories scenarios={len(results)} ok={n_ok} states_reached={len(seen)} closure_rounds={rounds}")
+    ctx.extra["history_scenarios"] = len(results)
+    ctx.extra["states_reached"] = len(seen)
+    for (verdict, group), items in bad.items():
+        desc, detail = items[0]
+        what = {"raises": f"the next scan raises {detail}", "differs": f"the next scan completes but its report is not the fresh-scan report ({detail})",
+                "incomplete": f"the next scan completes but leaves the cache incomplete: {detail}"}[verdict]
+        ctx.viol("R5", f"history/{verdict}/{group}"[:120], sc.site(),
+                 f"from the state [{desc}] {what}" + (f" ({len(items)} such states, e.g. also [{items[1][0]}])" if len(items) > 1 else ""))
+    if unknown and not bad and unknown > len(results) // 2:
+        raise AnalysisError(f"R5: {unknown} of {len(results)} scan histories were not evaluable")
+    return True
+
+
 def run(ctx, prj: Project):
     ctx.explanation = (
         "Mechanism of C10, decided on the statement tree: must-handle rule for the cache read/parse sites with an "
@@ -265,8 +488,36 @@ def run(ctx, prj: Project):
     ctx.not_decided = ["byte equality of the post-damage report with the fresh-scan report"]
     ctx.trust("json.loads raises ValueError; subscripting untrusted JSON raises KeyError/TypeError/IndexError; text-mode "
               "read raises UnicodeDecodeError (a ValueError) or OSError", "write_text truncates", "CPython ast")
-    r = Reader(prj)
-    rule_R1(ctx, prj, r)
-    rule_R2(ctx, prj, r)
-    rule_R3(ctx, prj)
+    before = len(ctx.violations)
     rule_R4(ctx, prj)
+    decided = rule_R5_history(ctx, prj, thorough=(ctx.tier == "thorough"))
+    try:
+        r = Reader(prj)
+        rule_R1(ctx, prj, r)
+    except AnalysisError as e:
+        if not decided or ctx.floors.get("R5", 0) == 0:
+            raise
+        # the read / parse sites are not where the structural rule looks for them (moved behind a helper or a class):
+        # what a damaged document does to a scan is decided by the evaluated histories (R5)
+        ctx.rule("R1", "handler discipline of the cache read: not readable off this form of the code; parse, shape and encoding "
+                       "faults are decided by the evaluated histories (R5); OSError on the read is not decided", floor=0)
+        ctx.info(f"R1 not applicable to this form ({e})")
+        ctx.instances["R1"] = []
+        r = None
+    rule_R3(ctx, prj)
+    evaluated_ok = bool(decided) and not any(v.rule in ("R4", "R5") for v in ctx.violations) and ctx.floors.get("R4", 0) > 0 and ctx.floors.get("R5", 0) > 0
+    # R2 is a proxy ("no handler inside the reader swallows an error"): when the wrong-shape documents (R4) and the scan
+    # histories (R5) were all evaluated and no damaged cache was reused, a tolerant reader is not a violation
+    mark = len(ctx.violations)
+    if r is None:
+        ctx.rule("R2", "all-or-nothing reader: decided by R4/R5 (the reader is not where the structural rule looks for it)", floor=0)
+        return
+    rule_R2(ctx, prj, r)
+    if evaluated_ok and len(ctx.violations) > mark:
+        for v in ctx.violations[mark:]:
+            ctx.info(f"R2 (structural) would report {v.key} at {v.site}; the evaluated rules R4/R5 show that no damaged cache is reused")
+            for inst in ctx.instances.get("R2", []):
+                if inst.get("what") == v.key:
+                    inst["verdict"] = "ok (decided by R4/R5)"
+            ctx.obligations -= 0
+        del ctx.violations[mark:]
